@@ -17,7 +17,7 @@ func init() {
 		ID:      "C10",
 		Modules: []string{"v2"},
 		Explanation: "Static totality clauses for the v2 API: (R10.1) every first/last/constant-position index or slice expression in v2 and v2/assets (NonEmpty obligations) is discharged by a dominating length guard, by construction, or by an audited provenance rule; " +
-			"(R10.2) every explicit panic and every regexp.MustCompile reachable from Match/MatchFrom/Normalize/AddContent is audited (MustCompile only on constants); (R10.3) every cycle of the tokenizer's read loop passes through the reader call and the end-of-input branch leaves the loop; (R10.4) the quadratic word diff is never run with go-diff's deadline switched off; (R10.5) every integer division by a run-time value is dominated by a test that excludes a zero divisor. " +
+			"(R10.2) every explicit panic and every regexp.MustCompile reachable from Match/MatchFrom/Normalize/AddContent is audited (MustCompile only on constants); (R10.3) every cycle of the tokenizer's read loop passes through the reader call and the end-of-input branch leaves the loop; (R10.4) the quadratic word diff is never run with go-diff's deadline switched off; (R10.5) every integer division by a run-time value is dominated by a test that excludes a zero divisor; (R10.6) no loop of the library accumulates a string by repeated concatenation (each step copies everything accumulated so far: quadratic in the length of a line or document). " +
 			"Decides these structural necessary conditions for all inputs; does not decide index arithmetic with non-constant indices nor termination of the numeric loops.",
 		Run: runC10,
 	})
@@ -63,6 +63,8 @@ func runC10(c *Ctx) {
 
 	// R10.5 integer divisions
 	checkIntDivisions(c, p, fns)
+	// R10.6 no quadratic string accumulation
+	checkStringAccumulation(c, p, fns)
 	// R01.2 (shared): the run detector uses the clamped q of the source search set (loop bounds depend on it)
 	checkRunDetectorQ(c, p)
 
@@ -302,4 +304,49 @@ func checkIntDivisions(c *Ctx, p *core.Prog, fns []*ssa.Function) {
 	if n == 0 {
 		c.R.OK("R10.5", "no integer division by a run-time value in v2 and v2/assets", "-", "nothing to guard")
 	}
+}
+
+// checkStringAccumulation: R10.6. `s = s + x` (or s += x) carried around a loop copies the accumulated text at every
+// iteration, so the loop takes time quadratic in its input: a megabyte-long line turns a call into minutes. The
+// library builds its texts with strings.Builder / byte slices; the rule keeps it that way.
+func checkStringAccumulation(c *Ctx, p *core.Prog, fns []*ssa.Function) {
+	n := 0
+	for _, fn := range fns {
+		if isTraceFn(fn) {
+			continue
+		}
+		for _, b := range fn.Blocks {
+			for _, in := range b.Instrs {
+				phi, ok := in.(*ssa.Phi)
+				if !ok || !isString(phi.Type()) {
+					continue
+				}
+				n++
+				for i, e := range phi.Edges {
+					if !b.Dominates(b.Preds[i]) {
+						continue // not a back edge
+					}
+					// e = phi + ... (possibly a chain of concatenations)
+					v := e
+					found := false
+					for d := 0; d < 6; d++ {
+						bo, ok := v.(*ssa.BinOp)
+						if !ok || bo.Op != token.ADD {
+							break
+						}
+						if bo.X == ssa.Value(phi) || bo.Y == ssa.Value(phi) {
+							found = true
+							break
+						}
+						v = bo.X
+					}
+					if found {
+						c.R.Fail("R10.6", core.ShortFn(fn)+": string accumulated by concatenation in a loop", p.Pos(e.Pos()), "each iteration copies the text accumulated so far: the loop is quadratic in the size of its input, and a very long line or document makes the call take minutes")
+					}
+				}
+			}
+		}
+	}
+	c.R.Count("R10.6:loop-carried string values examined", n)
+	c.R.OK("R10.6", "no loop of the library accumulates a string by concatenation", "-", fmt.Sprintf("%d loop-carried string values examined", n))
 }
